@@ -111,9 +111,9 @@ type Result struct {
 	CtxErr     error
 	Reached    bool // the final/callback fault was actually triggered
 	Reducer    bool
-	Resumed    int // failing calls the consumer recovered from
+	Resumed    int     // failing calls the consumer recovered from
 	AtClose    []error // ownership problems observed at the instant Close / the reducer returned
-	FirstFault error // the earliest scripted fault that a source or callback actually produced
+	FirstFault error   // the earliest scripted fault that a source or callback actually produced
 }
 
 // Env carries the per-run fault state shared by sources and callbacks.
@@ -747,7 +747,7 @@ var bg = context.Background()
 // Consume runs the consumer script against a subject.
 func Consume(c Case, subj Subject, e *Env, pace func()) *Result {
 	res := &Result{Case: c, E: e.E, Transients: []error{e.T1, e.T2}, Reducer: IsReducer(c.Comb)}
-	cancelled, cancel := context.WithCancel(bg)
+	cancelled, cancel := sk.WithCancel(bg)
 	cancel()
 	res.CtxErr = cancelled.Err()
 	calls, responses := 0, 0
@@ -762,7 +762,7 @@ func Consume(c Case, subj Subject, e *Env, pace func()) *Result {
 		}
 		if c.Fault.Kind == "ctxt" && calls == c.Fault.P {
 			var cancelT context.CancelFunc
-			ctx, cancelT = context.WithTimeout(bg, time.Duration(c.Fault.P2)*time.Millisecond)
+			ctx, cancelT = sk.WithTimeout(bg, time.Duration(c.Fault.P2)*time.Millisecond)
 			defer cancelT()
 			timed = true
 		}
